@@ -20,6 +20,7 @@ from ..tlc import run_tlc, TLCFailure
 
 MODULE = "C02_PolicyEval"
 QD = 6
+EPS = F(1, 2 ** 30)     # the concrete size of a "rare" weight handed to msdm (TLC only knows it is > 0)
 MENU_ROWS = {}          # K -> list of weight rows over K actions (numerators over 6)
 LIMIT = 2 ** 28         # bound on every integer TLC has to form (its integers are 32-bit)
 TLC_WORKERS = None      # framework default; one TLC run is in flight while the previous chunk is judged
@@ -34,9 +35,11 @@ INVARIANT NegInfIffNegativeClass
 INVARIANT OccupancyFlow
 INVARIANT Duality
 INVARIANT InstanceOK
+INVARIANT RareWeightsIrrelevantWhereExact
+INVARIANT ReuseMatchesFresh
 """
 DESIGN_INVS = ["MachineMatchesOracle", "Bellman", "NegInfIffNegativeClass", "OccupancyFlow", "Duality",
-               "InstanceOK"]
+               "InstanceOK", "RareWeightsIrrelevantWhereExact", "ReuseMatchesFresh"]
 
 MDP_REPS = [
     dict(rep="quick", labels="int", alabels="int", explicit_list=False, dist="dict"),
@@ -166,15 +169,16 @@ def _det(A):
     return sum((-1) ** j * A[0][j] * _det([row[:j] + row[j + 1:] for row in A[1:]]) for j in range(n))
 
 
-def exact(m, wq):
+def exact(m, wq, wf=None):
     """Independent exact evaluation of the policy wq (numerators over 6, rows of absorbing states
-    ignored).  Returns dict(v, q, occ, init, mag) with Fractions / '-inf' / '+inf' / None."""
+    ignored) or, when given, of the Fraction weights wf (then without the magnitude bookkeeping).
+    Returns dict(v, q, occ, init, mag) with Fractions / '-inf' / '+inf' / None."""
     N, K = m["N"], m["K"]
     g = F(m["GN"], m["GD"])
     PDQ = m["PD"] * QD
     D = m["GD"] * PDQ
     mag = Mag()
-    w = [[F(wq[s][a], QD) for a in range(K)] for s in range(N)]
+    w = wf if wf is not None else [[F(wq[s][a], QD) for a in range(K)] for s in range(N)]
     ab_e = {s for s in range(N) if m["abs"][s]}
     ab = ab_e | impl_abs(m)
     v = pyoracle.policy_value(m, {s: {a: w[s][a] for a in range(K)} for s in range(N) if s not in ab_e})
@@ -225,6 +229,8 @@ def exact(m, wq):
     else:
         init = sum(F(m["p0"][s], m["ID"]) * v[s] for s in range(N) if m["p0"][s] > 0)
 
+    if wf is not None:
+        return {"v": v, "q": q, "occ": occ, "init": init, "mag": 0, "rec": rec, "ab": ab, "rp": rp}
     # ---- magnitudes of what TLC computes (integers are 32-bit there) -------------------------
     fin = lambda z: z if isinstance(z, F) else F(0)
     ppi = [[int(Pp[s][t] * PDQ) for t in range(N)] for s in range(N)]      # MDP!PPi on the tabular view
@@ -364,11 +370,71 @@ def rand_p0(rng, m):
         m["p0"][s] = x
 
 
-def make_cases(rng, n_records, tier):
-    """Returns cases; each is {"m": instance (with gw, allpols, pols), "rep": MDP representation}.
-    The number of (instance, policy) records TLC will emit is about n_records."""
+def zero_flags(m):
+    return [[0] * m["K"] for _ in range(m["N"])]
+
+
+def rand_rare_policy(rng, m):
+    """A policy with rare entries: (surrogate weights, flags).  At 1-2 non-absorbing states an available
+    action gets a rare weight next to the ordinary ones; the surrogate row is a menu row on the union."""
+    wq = rand_policy(rng, m, rng.choice(["det", "det", "any"]))
+    tn = zero_flags(m)
+    cands = [s for s in range(m["N"]) if not m["abs"][s] and sum(m["avail"][s]) >= 2]
+    if not cands:
+        return None
+    for s in rng.sample(cands, min(len(cands), rng.choice([1, 1, 2]))):
+        av = [a for a in range(m["K"]) if m["avail"][s][a]]
+        ordinary = [a for a in av if wq[s][a] > 0]
+        if len(ordinary) == len(av):           # every available action is used: demote one of them
+            rare = [rng.choice(ordinary)]
+            ordinary = [a for a in ordinary if a not in rare]
+        else:
+            rare = [rng.choice([a for a in av if a not in ordinary])]
+        sup = set(ordinary) | set(rare)
+        rows = [r for r in rows_at(m, s) if {a for a in range(m["K"]) if r[a] > 0} == sup]
+        wq[s] = list(rng.choice(rows))
+        for a in rare:
+            tn[s][a] = 1
+    return wq, tn
+
+
+def alt_policy(m, wq, tn):
+    """The other surrogate used by the spec's invariant RareWeightsIrrelevantWhereExact (AltPolicy)."""
+    out = [list(r) for r in wq]
+    for s in range(m["N"]):
+        if m["abs"][s] or not any(tn[s]):
+            continue
+        sup = [a for a in range(m["K"]) if wq[s][a] > 0]
+        vals = {1: [QD], 2: [1, 5], 3: [1, 2, 3]}[len(sup)]
+        out[s] = [0] * m["K"]
+        for rk, a in enumerate(sup):
+            out[s][a] = vals[rk]
+    return out
+
+
+def real_weights(m, wq, tn):
+    """Fraction weights handed to msdm: rare entries are EPS, the ordinary entries of the row share the rest
+    in the proportions of the surrogate."""
+    out = []
+    for s in range(m["N"]):
+        if m["abs"][s] or not any(tn[s]):
+            out.append([F(x, QD) for x in wq[s]])
+            continue
+        nr = sum(tn[s])
+        tot = sum(wq[s][a] for a in range(m["K"]) if not tn[s][a])
+        out.append([EPS if tn[s][a] else (1 - nr * EPS) * F(wq[s][a], tot) for a in range(m["K"])])
+    return out
+
+
+def n_records(m):
+    return (len(all_policies(m)) if m["allpols"] else 0) + len(m["pols"])
+
+
+def make_cases(rng, n_wanted, tier):
+    """Returns cases; each is {"m": instance (with gw, allpols, pols, tinys, hist, sp, ap), "rep": MDP
+    representation}.  The number of (instance, policy) records TLC will emit is about n_wanted."""
     cases, total, rejected = [], 0, 0
-    while total < n_records:
+    while total < n_wanted:
         f = FAMS[len(cases) % len(FAMS)]
         n_na = min(rng.choice([1, 2, 2, 3, 3]), f["nmax"])
         n_abs = rng.choice([0, 1, 1, 2])
@@ -383,48 +449,72 @@ def make_cases(rng, n_records, tier):
         for s in range(m["N"]):
             if not m["abs"][s]:
                 count *= len(rows_at(m, s))
+        listed, tinys = [], []
         if count <= 25:
-            m["allpols"], m["pols"] = 1, []
-            pols = all_policies(m)
+            m["allpols"] = 1
+            checked = all_policies(m)
         else:
             m["allpols"] = 0
-            pols = []
             for style in ("any", "mixed", "any", "det", "uniform", "mixed"):
                 p = rand_policy(rng, m, style)
-                if p not in pols:
-                    pols.append(p)
-            m["pols"] = pols
-        ex = [exact(m, p) for p in pols]
+                if p not in listed:
+                    listed.append(p)
+                    tinys.append(zero_flags(m))
+            checked = list(listed)
+        # policies with rare entries: mostly where they decide between finite and -inf (undiscounted)
+        n_rare = rng.choice([2, 2, 3]) if f["GN"] == f["GD"] else rng.choice([0, 0, 1])
+        for _ in range(n_rare):
+            rp = rand_rare_policy(rng, m)
+            if rp is not None and not any(rp[0] == listed[i] and rp[1] == tinys[i] for i in range(len(listed))):
+                listed.append(rp[0])
+                tinys.append(rp[1])
+                checked += [rp[0], alt_policy(m, rp[0], rp[1])]
+        m["pols"], m["tinys"] = listed, tinys
+        ex = [exact(m, p) for p in checked]
         if any(e is None or e["mag"] >= LIMIT for e in ex):
             rejected += 1
             continue
+        # object-reuse history: the same policy object is evaluated on a second presentation of the MDP
+        m["hist"] = 1 if rng.random() < 0.3 else 0
+        sp, ap = list(range(1, m["N"] + 1)), list(range(1, K + 1))
+        if m["hist"]:
+            while m["N"] > 1 and sp == sorted(sp):
+                rng.shuffle(sp)
+            if K > 1 and (m["N"] == 1 or rng.random() < 0.7):
+                while ap == sorted(ap):
+                    rng.shuffle(ap)
+        m["sp"], m["ap"] = sp, ap
         rep = dict(MDP_REPS[rng.randrange(len(MDP_REPS))])
         if not rep["explicit_list"] and not gen.ghost_closed(m):
             rep["explicit_list"] = True      # ghost successors outside the inferred list: C06's business
+        if m["hist"]:
+            rep["explicit_list"] = True      # both presentations list every state and action
+            rep["relabel"] = rng.random() < 0.4
         cases.append({"m": m, "rep": rep})
-        total += len(pols)
+        total += n_records(m)
     return cases, rejected
 
 
 # --------------------------------------------------------------------------------------------
 # running the real code
 # --------------------------------------------------------------------------------------------
-def policy_rows(b, wq, gw):
+def policy_rows(b, wreal, gw):
     """label-level policy: {state label: {action label: float prob}} for every state of the instance."""
     m = b.m
     rows = {}
     for s in range(m["N"]):
-        src = gw[s] if m["abs"][s] else wq[s]
-        rows[b.slabel[s]] = {b.alabel[a]: src[a] / QD for a in range(m["K"])}
+        src = [F(x, QD) for x in gw[s]] if m["abs"][s] else wreal[s]
+        rows[b.slabel[s]] = {b.alabel[a]: float(src[a]) for a in range(m["K"])}
     return rows
 
 
-def make_policy(b, rows, prep, rng):
+def make_policy(mdp, rows, prep, rng, extra_states=()):
+    """The policy object.  `extra_states`: further state labels (rows[...] defined) the table must cover
+    (states of a second MDP the same object will be evaluated on)."""
     from msdm.core.mdp import TabularPolicy
     from msdm.core.mdp.policy import FunctionalPolicy
     from msdm.core.distributions import DictDistribution
-    mdp = b.mdp
-    sl, al = list(mdp.state_list), list(mdp.action_list)
+    sl, al = list(mdp.state_list) + list(extra_states), list(mdp.action_list)
     if prep == "table":
         data = np.array([[rows[s][a] for a in al] for s in sl])
         return TabularPolicy.from_state_action_lists(state_list=sl, action_list=al, data=data)
@@ -439,7 +529,7 @@ def make_policy(b, rows, prep, rng):
         return TabularPolicy.from_state_action_lists(state_list=sl2, action_list=al2, data=data)
     if prep == "functional_dict":
         pol = FunctionalPolicy(lambda s: {a: p for a, p in rows[s].items() if p > 0 and a in al})
-        return pol.to_tabular(mdp.state_list, mdp.action_list)
+        return pol.to_tabular(sl if extra_states else mdp.state_list, mdp.action_list)
     if prep == "functional_dist_perm":
         sl2, al2 = sl[:], al[:]
         rng.shuffle(sl2)
@@ -453,38 +543,69 @@ def make_policy(b, rows, prep, rng):
     raise ValueError(prep)
 
 
-def run_real(case, wq, preps, tamper=None):
-    """Evaluate the policy on the MDP of the case for each policy representation.
-    Returns {prep: projection or {"error": ...}} in abstract indices."""
+RELABEL = {"int": "str", "str": "tuple", "tuple": "int", "frozendict": "mixed", "mixed": "frozendict"}
+
+
+def second_presentation(mm, rep, seed, first):
+    """The MDP of the case once more, for the same policy object: same action labels, state list and
+    action list permuted by sp / ap, optionally other state labels."""
+    m = first.m
+    rep2 = {k: rep[k] for k in ("rep", "labels", "alabels", "explicit_list", "dist")}
+    rep2["explicit_list"] = True
+    if rep2["rep"] == "matrices":
+        rep2["rep"] = "quick"
+    if rep.get("relabel"):
+        rep2["labels"] = RELABEL[rep2["labels"]]
+    b = build.build_mdp(mm, rng=random.Random(seed), **rep2)
+    if b.alabel != first.alabel:
+        raise TLCFailure("second presentation: action labels differ (driver bug)")
+    b.mdp._state_list = [b.slabel[i - 1] for i in m["sp"]]
+    b.mdp._action_list = [b.alabel[j - 1] for j in m["ap"]]
+    return b
+
+
+def run_real(case, wq, tn, preps, tamper=None):
+    """Evaluate the policy on the MDP of the case for each policy representation; when the case has an
+    object-reuse history, the same policy object is then evaluated on the second presentation of the
+    MDP and once more on the first.  Returns {prep: [(stage, projection or {"error": ...}), ...]}."""
     m, rep = case["m"], case["rep"]
     mm = m
     if tamper == "instance":      # selftest: hand msdm a different reward
         mm = dict(m)
         mm["R"] = [[[x - 1 for x in row] for row in sa] for sa in m["R"]]
+    wreal = real_weights(m, wq, tn)
+    rep1 = {k: rep[k] for k in ("rep", "labels", "alabels", "explicit_list", "dist")}
     out = {}
     for prep in preps:
-        rng = random.Random(digest([case, wq, prep]))
-        shape = {}
+        seed = digest([case, wq, tn, prep])
+        rng = random.Random(seed)
+        stages = []
+        out[prep] = stages
         try:
-            b = build.build_mdp(mm, rng=rng, **rep)
-            rows = policy_rows(b, wq, m["gw"])
             with warnings.catch_warnings():
                 warnings.simplefilter("ignore")
-                pol = make_policy(b, rows, prep, rng)
-                sl, al = list(b.mdp.state_list), list(b.mdp.action_list)
-                shape["subset_actions"] = set(pol.action_list) < set(al)
-                if m["GN"] == m["GD"] and not shape["subset_actions"]:
-                    # input-shape predicate for the signature: float row sums of the policy's chain
-                    pmx = np.array([[rows[s][a] for a in al] for s in sl])
-                    mp = np.einsum("san,sa->sn", b.mdp.transition_matrix, pmx)
-                    shape["rowsum_lt1"] = [b.sidx(s) for s, x in zip(sl, mp.sum(-1)) if x < 1]
-                r = pol.evaluate_on(b.mdp)
-            o = project(b, r)
-            o["shape"] = shape
-            out[prep] = o
+                b = build.build_mdp(mm, rng=rng, **rep1)
+                rows = policy_rows(b, wreal, m["gw"])
+                b2, extra = None, []
+                if m.get("hist"):
+                    b2 = second_presentation(mm, rep, seed, b)
+                    rows2 = policy_rows(b2, wreal, m["gw"])
+                    extra = [s for s in rows2 if s not in rows]
+                    rows.update(rows2)
+                pol = make_policy(b.mdp, rows, prep, rng, extra_states=extra)
+        except TLCFailure:
+            raise
         except Exception as e:                       # noqa: BLE001 - judged as a clause failure
-            out[prep] = {"error": f"{type(e).__name__}: {e}"[:300],
-                         "shape": shape}
+            stages.append(("fresh", {"error": f"{type(e).__name__}: {e}"[:300]}))
+            continue
+        plan = [("fresh", b)] + ([("reuse-on-permuted-mdp", b2), ("reuse-back-on-first-mdp", b)] if b2 else [])
+        for stage, bb in plan:
+            try:
+                with warnings.catch_warnings():
+                    warnings.simplefilter("ignore")
+                    stages.append((stage, project(bb, pol.evaluate_on(bb.mdp))))
+            except Exception as e:                   # noqa: BLE001 - judged as a clause failure
+                stages.append((stage, {"error": f"{type(e).__name__}: {e}"[:300]}))
     return out
 
 
@@ -504,29 +625,39 @@ def project(b, r):
 # --------------------------------------------------------------------------------------------
 # judging
 # --------------------------------------------------------------------------------------------
-def close(x, ex):
-    """float from msdm against the exact value emitted by TLC (Fraction / +-inf)."""
+def close(x, ex, binding=True):
+    """float from msdm against the exact value emitted by TLC (Fraction / +-inf).  An entry that is not
+    binding (it depends on the size of a rare weight) only has to be finite where the exact one is."""
     if isinstance(ex, float):
         return x == ex
     if math.isnan(x) or math.isinf(x):
         return False
+    if not binding:
+        return True
     e = float(ex)
     return abs(x - e) <= 1e-9 * max(1.0, abs(e))
 
 
 WHAT = ("mc: oracle + evaluation machine over (instance, policy) pairs; all menu policies enumerated by TLC "
-        "on instances with <= 25 of them")
+        "on instances with <= 25 of them; policies with rare entries; second round of the machine on the "
+        "permuted presentation for object-reuse histories")
+BATCH_FIELDS = ("N", "K", "PD", "GN", "GD", "ID", "abs", "avail", "P", "R", "p0", "gw", "allpols", "pols",
+                "tinys", "hist", "sp", "ap")
 
 
 def tlc_run(ctx, cases, tag="mc", coverage=False):
     """One TLC run over the batch (thread-safe: private work directory, nothing touched in ctx)."""
-    batch = []
-    for c in cases:
-        rec = {k: c["m"][k] for k in ("N", "K", "PD", "GN", "GD", "ID", "abs", "avail", "P", "R", "p0",
-                                      "gw", "allpols", "pols")}
-        batch.append(rec)
-    return run_tlc(ctx.workdir / tag, MODULE, CFG, files={"batch.json": batch},
-                   env={"BATCH_FILE": "batch.json"}, coverage=coverage, workers=TLC_WORKERS)
+    batch = [{k: c["m"][k] for k in BATCH_FIELDS} for c in cases]
+    for attempt in range(1):
+        try:
+            return run_tlc(ctx.workdir / tag, MODULE, CFG, files={"batch.json": batch},
+                           env={"BATCH_FILE": "batch.json"}, coverage=coverage, workers=TLC_WORKERS)
+        except TLCFailure as e:
+            # the JVM could not get memory / threads at start-up (shared machine): environmental, retried
+            if "ran out of memory" not in str(e) or attempt == 0:
+                raise
+            import time
+            time.sleep(10 * (attempt + 1))
 
 
 def tlc_records(ctx, cases, what, res=None):
@@ -542,20 +673,23 @@ def tlc_records(ctx, cases, what, res=None):
 
 def judge_cases(ctx, cases, *, tamper=None, tamper_at=0, preps=None, res=None):
     recs = tlc_records(ctx, cases, WHAT, res=res)
-    expected = sum(len(all_policies(c["m"])) if c["m"]["allpols"] else len(c["m"]["pols"]) for c in cases)
+    expected = sum(n_records(c["m"]) for c in cases)
     if len(recs) != expected:
         raise TLCFailure(f"TLC emitted {len(recs)} records, {expected} (instance, policy) pairs expected")
-    recs.sort(key=lambda r: (r["iid"], r["w"]))
+    recs.sort(key=lambda r: (r["iid"], r["w"], r["tn"]))
     for n, r in enumerate(recs):
         c = cases[r["iid"] - 1]
         judge_one(ctx, c, r, n, tamper=(tamper if n == tamper_at else None), preps=preps)
 
 
-def crosscheck(m, wq, r):
+def crosscheck(m, wq, tn, r):
+    """TLC's record against the independent Fraction implementation.  For a policy with rare entries TLC
+    worked on a surrogate: its whole record is checked against the surrogate's exact evaluation, and its
+    structural verdicts and binding entries against the exact evaluation of the weights msdm receives."""
+    N, K = m["N"], m["K"]
     ex = exact(m, wq)
     if ex is None:
         raise TLCFailure("python oracle: singular system")
-    N, K = m["N"], m["K"]
     for s in range(N):
         if not same(r["v"][s], ex["v"][s]):
             raise TLCFailure(f"TLA+ and Python oracles disagree on V[{s}]: {r['v'][s]} vs {ex['v'][s]} (m={m}, w={wq})")
@@ -566,16 +700,34 @@ def crosscheck(m, wq, r):
                 raise TLCFailure(f"TLA+ and Python oracles disagree on Q[{s}][{a}]: {r['q'][s][a]} vs {ex['q'][s][a]} (m={m}, w={wq})")
     if not same(r["init"], ex["init"]):
         raise TLCFailure(f"TLA+ and Python oracles disagree on the initial value: {r['init']} vs {ex['init']} (m={m}, w={wq})")
-    return ex
+    if any(any(row) for row in tn):
+        er = exact(m, wq, wf=real_weights(m, wq, tn))
+        vx = {s - 1 for s in r["vexact"]}
+        ox = {s - 1 for s in r["oexact"]}
+
+        def agree(tla, py, binding, what):
+            inf_t = frac(tla) in (float("-inf"), float("inf"))
+            inf_p = py in (pyoracle.NEG, pyoracle.POS)
+            if inf_t != inf_p or (inf_t and not same(tla, py)) or (binding and not same(tla, py)):
+                raise TLCFailure(f"rare weights: TLA+ verdict on {what} ({tla}, binding={binding}) contradicts the exact "
+                                 f"evaluation with weight 2^-30 ({py}) (m={m}, w={wq}, tn={tn})")
+        for s in range(N):
+            agree(r["v"][s], er["v"][s], s in vx, f"V[{s}]")
+            agree(r["occ"][s], er["occ"][s], s in ox, f"occ[{s}]")
+            for a in range(K):
+                if er["q"][s][a] is not None:
+                    agree(r["q"][s][a], er["q"][s][a], bool(r["qexact"][s][a]), f"Q[{s}][{a}]")
+        agree(r["init"], er["init"], bool(r["iexact"]), "initial value")
 
 
 def judge_one(ctx, c, r, n, *, tamper=None, preps=None):
     m = c["m"]
-    wq = r["w"]
+    wq, tn = r["w"], r["tn"]
     N, K = m["N"], m["K"]
     disc = m["GN"] < m["GD"]
-    if n % 3 == 0 or tamper:
-        crosscheck(m, wq, r)
+    rare = any(any(row) for row in tn)
+    if n % 3 == 0 or tamper or rare:
+        crosscheck(m, wq, tn, r)
         ctx.count("oracle_crosschecks")
     v = [frac(x) for x in r["v"]]
     q = [[frac(x) for x in row] for row in r["q"]]
@@ -584,106 +736,110 @@ def judge_one(ctx, c, r, n, *, tamper=None, preps=None):
     init = frac(r["init"])
     absall = {s - 1 for s in r["absall"]}
     implabs = {s - 1 for s in r["implabs"]}
-    rec = {s - 1 for s in r["rec"]}
+    vx = {s - 1 for s in r["vexact"]}
+    ox = {s - 1 for s in r["oexact"]}
+    qx = r["qexact"]
+    ix = bool(r["iexact"])
     if preps is None:
-        rng = random.Random(digest([m, wq]))
+        rng = random.Random(digest([m, wq, tn]))
         preps = [DIRECT[rng.randrange(len(DIRECT))], CONVERTED[rng.randrange(len(CONVERTED))]]
-    outs = run_real(c, wq, preps, tamper=("instance" if tamper == "instance" else None))
-    ctx.evaluations += len(outs)
+    outs = run_real(c, wq, tn, preps, tamper=("instance" if tamper == "instance" else None))
     if tamper == "value":
-        o = next(o for o in outs.values() if "error" not in o)
+        o = next(o for st in outs.values() for _, o in st if "error" not in o)
         s = next((s for s in o["states"] if s not in absall), o["states"][0])
         o["V"][s] += 0.5
     site = SITE[disc]
+    conv = {"functional_dict": "Policy.to_tabular", "functional_dist_perm": "Policy.to_tabular",
+            "from_dict": "TabularPolicy.from_dict", "from_dict_sparse": "TabularPolicy.from_dict"}
     direct_failed = set()
     all_ok = True
     for prep in preps:
-        o = outs[prep]
-        ctx.count(f"runs[{prep}]")
-        failed = []
-        drifts = []      # reported only when every clause of the statement held on this run
+        fresh_failed = set()
+        for stage, o in outs[prep]:
+            ctx.evaluations += 1
+            ctx.count(f"runs[{prep}]" if stage == "fresh" else f"runs[{stage}]")
+            failed = []
+            drifts = []      # reported only when every clause of the statement held on this run
 
-        def fail(clause, what):
-            failed.append(clause)
-            shape = o.get("shape", {})
-            bad_rows = [s for s in shape.get("rowsum_lt1", []) if s in rec]
-            if shape.get("subset_actions"):
-                sig = "C02:TabularPolicy.evaluate_on:policy-action-list-strict-subset"
-            elif bad_rows:
-                sig = f"C02:{site}:recurrent-row-float-sum-below-1"
-                what += f" [float row sum of the chain < 1 at recurrent state(s) {bad_rows}]"
-            elif prep in CONVERTED and clause in direct_failed:
-                sig = f"C02:{site}:{clause}"
-            elif prep in CONVERTED:
-                conv = {"functional_dict": "Policy.to_tabular", "functional_dist_perm": "Policy.to_tabular",
-                        "from_dict": "TabularPolicy.from_dict", "from_dict_sparse": "TabularPolicy.from_dict"}[prep]
-                sig = f"C02:{conv}->{site}:{clause}"
+            def fail(clause, what):
+                failed.append(clause)
+                if stage != "fresh" and clause not in fresh_failed:
+                    sig = f"C02:{site}:{clause}:policy-object-reused-on-second-mdp"
+                elif prep in CONVERTED and clause not in direct_failed:
+                    sig = f"C02:{conv[prep]}->{site}:{clause}"
+                else:
+                    sig = f"C02:{site}:{clause}"
+                if rare:
+                    sig += ":rare-weight"
+                ctx.violation(sig, f"{site} [{prep}, {stage}] {clause}: {what}",
+                              {"case": _single({"case": c, "w": wq, "tn": tn}), "w": wq, "tn": tn, "preps": [prep],
+                               "clause": clause})
+
+            if "error" in o:
+                fail("error", f"raised {o['error']}")
             else:
-                sig = f"C02:{site}:{clause}"
-            ctx.violation(sig, f"{site} [{prep}] {clause}: {what}",
-                          {"case": _single({"case": c, "w": wq}), "w": wq, "preps": [prep], "clause": clause})
-
-        if "error" in o:
-            fail("error", f"raised {o['error']}")
-            all_ok = False
-            if prep in DIRECT:
-                direct_failed = set(failed)
-            continue
-        listed = o["states"]
-        # --- clause: state values (absorbing states worth 0, -inf exactly on the oracle's set)
-        for s in listed:
-            if not close(o["V"][s], v[s]):
-                kind = "absorbing-zero" if s in absall else ("neginf-set" if (isinstance(v[s], float) or math.isinf(o["V"][s])) else "state_value")
-                fail(kind, f"state_value[{s}]={o['V'][s]} but exact {v[s]}")
-                break
-        # --- clause: action values (unavailable actions -inf); rows of explicitly absorbing states: DRIFT only
-        done = False
-        for s in listed:
-            for a in o["actions"]:
-                x = o["Q"][s][a]
-                if m["abs"][s]:
-                    e = mq[s][a] if mq[s][a] is not None else float("-inf")
-                    if not close(x, e):
-                        drifts.append(("ActionValue-at-absorbing-state",
-                                       {"case": digest(c), "state": s, "action": a, "real": x, "machine": str(e)}))
-                    continue
-                e = q[s][a] if q[s][a] is not None else float("-inf")
-                if not close(x, e):
-                    kind = "unavailable-action" if q[s][a] is None else "action_value"
-                    fail(kind, f"action_value[{s}][{a}]={x} but exact {e}")
-                    done = True
-                    break
-            if done:
-                break
-        # --- clause: occupancies (implicitly absorbing states: DRIFT only)
-        for s in listed:
-            if not close(o["occ"][s], occ[s]):
-                if s in implabs:
-                    drifts.append(("Occupancy-at-implicitly-absorbing-state",
-                                   {"case": digest(c), "state": s, "real": o["occ"][s], "machine": str(occ[s])}))
-                    continue
-                kind = "posinf-set" if (isinstance(occ[s], float) or math.isinf(o["occ"][s])) else "state_occupancy"
-                fail(kind, f"state_occupancy[{s}]={o['occ'][s]} but exact {occ[s]}")
-                break
-        # --- clause: initial value
-        if not close(o["initial_value"], init):
-            fail("initial_value", f"initial_value={o['initial_value']} but exact {init}")
-        if prep in DIRECT:
-            direct_failed = set(failed)
-        if failed:
-            all_ok = False
-        elif drifts:
-            for step, detail in drifts[:1]:
-                ctx.drift(step, detail)
-        else:
-            ctx.validated += 1
+                listed = o["states"]
+                # --- clause: state values (absorbing states worth 0, -inf exactly on the oracle's set)
+                for s in listed:
+                    if not close(o["V"][s], v[s], s in vx):
+                        kind = "absorbing-zero" if s in absall else ("neginf-set" if (isinstance(v[s], float) or not math.isfinite(o["V"][s])) else "state_value")
+                        fail(kind, f"state_value[{s}]={o['V'][s]} but exact {v[s]}")
+                        break
+                # --- clause: action values (unavailable actions -inf); rows of explicitly absorbing states: DRIFT only
+                done = False
+                for s in listed:
+                    for a in o["actions"]:
+                        x = o["Q"][s][a]
+                        if m["abs"][s]:
+                            e = mq[s][a] if mq[s][a] is not None else float("-inf")
+                            if not close(x, e, bool(qx[s][a])):
+                                drifts.append(("ActionValue-at-absorbing-state",
+                                               {"case": digest(c), "state": s, "action": a, "real": x, "machine": str(e)}))
+                            continue
+                        e = q[s][a] if q[s][a] is not None else float("-inf")
+                        if not close(x, e, bool(qx[s][a])):
+                            kind = "unavailable-action" if q[s][a] is None else "action_value"
+                            fail(kind, f"action_value[{s}][{a}]={x} but exact {e}")
+                            done = True
+                            break
+                    if done:
+                        break
+                # --- clause: occupancies (implicitly absorbing states: DRIFT only)
+                for s in listed:
+                    if not close(o["occ"][s], occ[s], s in ox):
+                        if s in implabs:
+                            drifts.append(("Occupancy-at-implicitly-absorbing-state",
+                                           {"case": digest(c), "state": s, "real": o["occ"][s], "machine": str(occ[s])}))
+                            continue
+                        kind = "posinf-set" if (isinstance(occ[s], float) or not math.isfinite(o["occ"][s])) else "state_occupancy"
+                        fail(kind, f"state_occupancy[{s}]={o['occ'][s]} but exact {occ[s]}")
+                        break
+                # --- clause: initial value
+                if not close(o["initial_value"], init, ix):
+                    fail("initial_value", f"initial_value={o['initial_value']} but exact {init}")
+            if stage == "fresh":
+                fresh_failed = set(failed)
+                if prep in DIRECT:
+                    direct_failed = set(failed)
+            if failed:
+                all_ok = False
+            elif drifts:
+                ctx.drift(*drifts[0])
+            else:
+                ctx.validated += 1
     # non-triviality: >= 2 listed non-absorbing states and the policy mixes two actions of different exact Q
-    ok_out = next((o for o in outs.values() if "error" not in o), None)
+    ok_out = next((o for st in outs.values() for _, o in st if "error" not in o), None)
     if ok_out is not None:
         na = [s for s in ok_out["states"] if s not in absall]
         mixes = any(len({str(q[s][a]) for a in range(K) if wq[s][a] > 0}) > 1 for s in na)
         if len(na) >= 2 and mixes:
-            ctx.nontrivial(digest([{k: m[k] for k in ("N", "K", "PD", "GN", "GD", "ID", "abs", "avail", "P", "R", "p0")}, wq]))
+            ctx.nontrivial(digest([{k: m[k] for k in ("N", "K", "PD", "GN", "GD", "ID", "abs", "avail", "P", "R", "p0")}, wq, tn]))
+        if rare:
+            ctx.count("records_with_rare_weights")
+            if len(vx) < N:
+                ctx.count("records_with_rare_weights_and_nonbinding_values")
+        if m.get("hist"):
+            ctx.count("records_with_object_reuse_history")
         if not disc:
             if any(v[s] == float("-inf") for s in na):
                 ctx.count("undiscounted_cases_with_neginf_state")
@@ -691,28 +847,34 @@ def judge_one(ctx, c, r, n, *, tamper=None, preps=None):
                 ctx.count("undiscounted_cases_with_finite_nonzero_state")
             if any(occ[s] == float("inf") for s in na):
                 ctx.count("undiscounted_cases_with_posinf_occupancy")
-    ctx.sample({"instance": {k: m[k] for k in ("N", "K", "PD", "GN", "GD", "ID", "abs", "avail", "P", "R", "p0", "gw")},
-                "policy_w_over_6": wq, "rep": c["rep"], "policy_reps": preps,
+    ctx.sample({"instance": {k: m[k] for k in ("N", "K", "PD", "GN", "GD", "ID", "abs", "avail", "P", "R", "p0", "gw", "hist", "sp", "ap")},
+                "policy_w_over_6": wq, "rare_flags": tn, "rep": c["rep"], "policy_reps": preps,
                 "exact": {"v": [str(x) for x in v], "occ": [str(x) for x in occ], "init": str(init)},
-                "real": {p: (o if "error" in o else {"V": o["V"], "occ": o["occ"], "initial_value": o["initial_value"]})
-                         for p, o in outs.items()}})
+                "real": {p: [(stage, o if "error" in o else {"V": o["V"], "occ": o["occ"], "initial_value": o["initial_value"]})
+                             for stage, o in st] for p, st in outs.items()}})
     return all_ok
 
 
 # --------------------------------------------------------------------------------------------
 def run(ctx):
     rng = random.Random(ctx.seed * 7919 + 2)
-    n = 2000 if ctx.tier == "quick" else 36000
+    n = 2000 if ctx.tier == "quick" else 30000
     ctx.rule = ("(instance, policy) pairs: random members of MDPFam (1-3 non-absorbing + 0-2 explicitly absorbing states with "
                 "ghost dynamics and ghost policy rows, implicit absorbing states, 1-3 state-dependent actions, gamma in "
                 "{1/2,3/4,9/10,1}, PD in {2,4}, initial mass on absorbing states) x stochastic policies with weights in "
-                "{0,1/3,1/2,2/3,1} (all of them, enumerated by TLC, when there are <= 25; 6 sampled otherwise) x 7 MDP "
-                "representations x 6 policy representations; non-trivial = >= 2 listed non-absorbing states and a state "
-                "where the policy mixes two actions of different exact action value")
+                "{0,1/3,1/2,2/3,1} (all of them, enumerated by TLC, when there are <= 25; 6 sampled otherwise) plus policies "
+                "with rare entries (weight 2^-30 in msdm, 'some weight > 0' in the spec) x 7 MDP representations x 6 policy "
+                "representations; on 30% of the instances the same policy object is evaluated again on a second presentation "
+                "of the MDP (permuted state / action lists, optionally other state labels) and back on the first; "
+                "non-trivial = >= 2 listed non-absorbing states and a state where the policy mixes two actions of "
+                "different exact action value")
     ctx.assumptions = [
         "TLC evaluates the TLA+ oracle correctly (cross-checked entry-wise against an independent Fraction "
-        "implementation on every 3rd record)",
-        "float results of the <= 5x5 linear solves are compared with 1e-9*max(1,|exact|) slack; +-inf must match exactly",
+        "implementation on every 3rd record and on every record with rare weights, there also against the exact "
+        "evaluation with the concrete weight 2^-30)",
+        "float results of the <= 5x5 linear solves are compared with 1e-9*max(1,|exact|) slack; +-inf must match exactly; "
+        "finite entries that depend on the size of a rare weight (decided by the spec: VExact/QExact/OccExact/InitExact) "
+        "only have to be finite",
         "action values at explicitly absorbing states and occupancies at implicitly absorbing states are not fixed by "
         "the statement: compared against the reference machine only (DRIFT)"]
     cases, rejected = make_cases(rng, n, ctx.tier)
@@ -738,6 +900,10 @@ def run(ctx):
 def _single(case):
     m = dict(case["case"]["m"])
     m["allpols"], m["pols"] = 0, [case["w"]]
+    m["tinys"] = [case.get("tn") or zero_flags(m)]
+    m.setdefault("hist", 0)
+    m.setdefault("sp", list(range(1, m["N"] + 1)))
+    m.setdefault("ap", list(range(1, m["K"] + 1)))
     return {"m": m, "rep": case["case"]["rep"]}
 
 
